@@ -3,6 +3,7 @@ package main
 import (
 	"context"
 	"fmt"
+	"runtime/debug"
 	"sort"
 
 	p9p "github.com/frobnitzem/go-p9p"
@@ -77,10 +78,39 @@ func runLong(r *rep.Report, msize, rounds, keepEvery int) {
 		}
 	}
 
+	// guard runs one call of the implementation; a panic inside the library ends this history
+	// with a recorded failure, not the run
+	abandoned := false
+	guard := func(what string, f func()) {
+		defer func() {
+			if x := recover(); x != nil {
+				st := string(debug.Stack())
+				if !implPanic(st) {
+					panic(x)
+				}
+				nPanics++
+				abandoned = true
+				fail("cfs.long.panic", fmt.Sprintf("%s panicked inside the client layer: %v", what, x))
+			}
+		}()
+		f()
+	}
+	giveUp := func(why string) {
+		r.Case(c, sx.L(sx.Sym("long"), sx.Sym(why)), "cfs-long:"+why, true)
+	}
+
 	*p = plan{attachQid: p9p.Qid{Type: p9p.QTDIR, Version: 0, Path: 1}, walkK: 99}
-	root, err := cfs.Attach(ctx, "", "", nil)
-	if err != nil {
-		panic(fmt.Sprintf("long history: attach failed: %v", err))
+	var root p9p.Dirent
+	var err error
+	guard("Attach", func() { root, err = cfs.Attach(ctx, "", "", nil) })
+	if abandoned {
+		giveUp("panic")
+		return
+	}
+	if err != nil || isNilEnt(root) {
+		fail("cfs.long.attach", fmt.Sprintf("Attach(\"\", \"\", nil) on a file system that accepts it: entry %v, error %v", root, err))
+		giveUp("attach-failed")
+		return
 	}
 	take()
 	rootFid := entFid(root)
@@ -105,7 +135,14 @@ func runLong(r *rep.Report, msize, rounds, keepEvery int) {
 		case 2:
 			p.walkK = 1
 		}
-		qids, e, werr := root.Walk(ctx, names...)
+		var qids []p9p.Qid
+		var e p9p.Dirent
+		var werr error
+		guard(fmt.Sprintf("round %d: Walk(%q)", i, names), func() { qids, e, werr = root.Walk(ctx, names...) })
+		if abandoned {
+			giveUp("panic")
+			return
+		}
 		cs := take()
 		if k == 3 {
 			if len(cs) != 0 || werr == nil {
@@ -144,6 +181,10 @@ func runLong(r *rep.Report, msize, rounds, keepEvery int) {
 		if k == 2 {
 			fail("cfs.walk.failed-reported-ok", fmt.Sprintf("round %d: partial walk reported as success", i))
 		}
+		if isNilEnt(e) {
+			fail("cfs.walk.nil-entry", fmt.Sprintf("round %d: Walk(%q) returned no entry and no error", i, names))
+			continue
+		}
 		f := entFid(e)
 		if f == uint32(p9p.NOFID) {
 			fail("cfs.fid.nofid", fmt.Sprintf("round %d: the new entry has fid NOFID", i))
@@ -159,10 +200,14 @@ func runLong(r *rep.Report, msize, rounds, keepEvery int) {
 		var cerr error
 		want := "clunk"
 		if i%2 == 0 {
-			cerr = e.Clunk(ctx)
+			guard(fmt.Sprintf("round %d: Clunk", i), func() { cerr = e.Clunk(ctx) })
 		} else {
-			cerr = e.Remove(ctx)
+			guard(fmt.Sprintf("round %d: Remove", i), func() { cerr = e.Remove(ctx) })
 			want = "remove"
+		}
+		if abandoned {
+			giveUp("panic")
+			return
 		}
 		cs = take()
 		if len(cs) != 1 || cs[0].kind != want {
@@ -181,7 +226,13 @@ func runLong(r *rep.Report, msize, rounds, keepEvery int) {
 	}
 	sort.Slice(liveFids, func(i, j int) bool { return liveFids[i] < liveFids[j] })
 	for _, k := range append(kept, held{root, rootFid}) {
-		if err := k.ent.Clunk(ctx); err != nil {
+		var cerr error
+		guard("final Clunk", func() { cerr = k.ent.Clunk(ctx) })
+		if abandoned {
+			giveUp("panic")
+			return
+		}
+		if cerr != nil {
 			scripted = false
 		}
 		cs := take()
